@@ -272,6 +272,9 @@ def main_wrapper(prop, runner, argv=None):
             # a recorded operation history (harness/optrace.py): re-record it from its seed and validate it again
             from harness import optrace
             optrace.replay(chk, replay["scenario"])
+        elif replay and isinstance(replay.get("scenario"), dict) and replay["scenario"].get("cli"):
+            from harness import cli
+            cli.replay(chk, replay["scenario"])
         else:
             runner(chk, replay)
         if tier == "thorough" and not replay:
